@@ -661,11 +661,37 @@ class StmtMixin:
         return outs
 
     def st_For(self, s, st, exc):
+        if isinstance(s.iter, (ast.Tuple, ast.List)) and s.iter.elts and all(isinstance(x, ast.Constant) for x in s.iter.elts) \
+                and self.target.loops.get(self.loop_ordinals[id(s)]) is None:
+            return self.unroll_literal_for(s, st, exc)
         ordn, ls = self.loop_spec(s)
         tag = "loop%d" % ordn
         outs = []
         for s1, it in self.ev(s.iter, st, exc):
             outs.extend(self.for_over(s, s1, it, ordn, ls, tag, exc))
+        return outs
+
+    def unroll_literal_for(self, s, st, exc):
+        """`for x in ("a", "b"):` over a literal tuple of constants: exact unrolling (not an approximation)."""
+        live, outs = [st], []
+        for elt in s.iter.elts:
+            nxt = []
+            for s0 in live:
+                for s1, v in self.ev(elt, s0, exc):
+                    for b1 in self.assign(s.target, v, s1, exc):
+                        for o in self.exec_block(s.body, b1):
+                            if o.kind in ("normal", "continue"):
+                                nxt.append(o.st)
+                            elif o.kind == "break":
+                                outs.append(Out("normal", o.st))
+                            else:
+                                outs.append(o)
+            live = nxt
+        for s0 in live:
+            if s.orelse:
+                outs.extend(self.exec_block(s.orelse, s0))
+            else:
+                outs.append(Out("normal", s0))
         return outs
 
     def for_over(self, s, st, it, ordn, ls, tag, exc):
